@@ -79,7 +79,7 @@ fn check_info(info: &RunInfo, describe: &dyn Fn() -> String) -> Outcome {
     if let Some(p) = info.thread_panics.first() {
         let (msg, loc) = p.rsplit_once(" @ ").unwrap_or((p, ""));
         let file = loc.rsplit_once(':').map(|x| x.0).unwrap_or(loc);
-        let file = file.strip_prefix("/repo/").unwrap_or(file);
+        let file = vmc::explore::norm_file(file);
         let msg = msg.split_once("): ").map(|x| x.1).unwrap_or(msg);
         return Err(Violation::new(
             format!("outcome=thread-panic msg={} file={}", vmc::normalise_msg(msg), file),
